@@ -28,6 +28,60 @@ const AXIS_LABELS: [&str; 3] = ["Weight", "Fam", "Regular"];
 const SM_STYLE: &str = "bold";
 const N_SEEDS: u64 = 8;
 
+/// The `<labelname xml:lang="..">` children of an `<axis>`, as the list of languages in document order.
+/// Index 0 (none) is the space enumerated before this dimension existed.
+const LN_CONFIGS: [&[&str]; 8] =
+    [&[], &["en"], &["en", "en-GB"], &["en-GB", "en"], &["en-GB"], &["en", "fr"], &["fr", "en"], &["fr"]];
+/// the strings of the labelnames of axis 0 / axis 1 — all distinct, and distinct from every other string
+/// of the alphabet except the instance name `LN_INST`
+const LN_STRINGS: [[(&str, &str); 3]; 2] = [
+    [("en", "Heaviness"), ("en-GB", "Heft"), ("fr", "Graisse")],
+    [("en", "Breadth"), ("en-GB", "Girth"), ("fr", "Chasse")],
+];
+/// an instance name that coincides with axis 0's `en` labelname
+const LN_INST: &str = "Heaviness";
+/// `name` attributes of the axis in the labelname space: a plain one, one of the lower-case MutatorMath
+/// names that fontTools / fontc expand when there is no `en` labelname, and one that coincides with a family name
+const LN_AXIS_NAMES: [&str; 3] = ["Weight", "weight", "Fam"];
+
+fn ln_config(axis: usize, k: usize) -> Vec<(String, String)> {
+    LN_CONFIGS[k]
+        .iter()
+        .map(|lang| {
+            let s = LN_STRINGS[axis].iter().find(|(l, _)| l == lang).unwrap().1;
+            (lang.to_string(), s.to_string())
+        })
+        .collect()
+}
+
+/// Windows (platform 3) and Macintosh (platform 1) language ids of the xml:lang values of the alphabet
+fn lang_ids(lang: &str) -> Option<(u16, u16)> {
+    match lang {
+        "en" => Some((0x0409, 0)),
+        "en-GB" => Some((0x0809, 0)),
+        "fr" => Some((0x040C, 1)),
+        _ => None,
+    }
+}
+
+/// The string the source designates as the axis' display name. Designspace specification, `<axis>`:
+/// `<labelname xml:lang="en">` is the UI name of the axis; without one the `name` attribute is. fontc
+/// (fontdrasil `Axis::ui_label_name` doc comment) and fontTools additionally expand the five lower-case
+/// MutatorMath names when they are what is fallen back to.
+fn ui_name(a: &Axis) -> String {
+    if let Some((_, s)) = a.labelnames.iter().find(|(l, _)| l == "en") {
+        return s.clone();
+    }
+    match a.name.as_str() {
+        "weight" => "Weight".into(),
+        "width" => "Width".into(),
+        "slant" => "Slant".into(),
+        "optical" => "Optical Size".into(),
+        "italic" => "Italic".into(),
+        n => n.to_string(),
+    }
+}
+
 #[derive(Debug, Clone, Copy, PartialEq, Eq, Hash, PartialOrd, Ord, Serialize, Deserialize)]
 enum Shape {
     /// a single UFO
@@ -53,7 +107,12 @@ struct Case {
     other_insts: Vec<String>,
     /// 0 none, 1 every instance has postscriptfontname, 2 only the first instance has one
     ps: u8,
+    /// the `name` attribute of each axis
     axis_labels: Vec<String>,
+    /// the `<labelname>` children of each axis, (xml:lang, string) in document order (may be shorter than
+    /// `axis_labels`: no labelnames)
+    #[serde(default)]
+    axis_lnames: Vec<Vec<(String, String)>>,
     fea_name: bool,
     fea_ss: bool,
     fea_cv: bool,
@@ -112,9 +171,22 @@ impl Case {
     fn stat_axis_label(&self) -> String {
         self.axis_labels.first().cloned().unwrap_or("Weight".into())
     }
+    fn has_labelnames(&self) -> bool {
+        self.axis_lnames.iter().any(|l| !l.is_empty())
+    }
+    /// e.g. `en+en-GB|-` (one group per axis, `-` = none)
+    fn ln_signature(&self) -> String {
+        (0..self.axis_labels.len())
+            .map(|i| match self.axis_lnames.get(i) {
+                Some(l) if !l.is_empty() => l.iter().map(|(lang, _)| lang.as_str()).collect::<Vec<_>>().join("+"),
+                _ => "-".to_string(),
+            })
+            .collect::<Vec<_>>()
+            .join("|")
+    }
     fn short(&self) -> String {
         format!(
-            "{:?} fam={:?} style={:?} sm={} dflt_inst={:?} others={:?} ps={} axes={:?} fea[name={} ss={} cv={} stat={}]",
+            "{:?} fam={:?} style={:?} sm={} dflt_inst={:?} others={:?} ps={} axes={:?}{} fea[name={} ss={} cv={} stat={}]",
             self.shape,
             self.family,
             self.style,
@@ -123,6 +195,7 @@ impl Case {
             self.other_insts,
             self.ps,
             self.axis_labels,
+            if self.has_labelnames() { format!(" labelnames={:?}", self.axis_lnames) } else { String::new() },
             self.fea_name as u8,
             self.fea_ss as u8,
             self.fea_cv as u8,
@@ -132,7 +205,7 @@ impl Case {
 }
 
 fn build_design(c: &Case) -> Design {
-    let (axes, locs): (Vec<Axis>, Vec<Vec<f64>>) = match c.shape {
+    let (mut axes, locs): (Vec<Axis>, Vec<Vec<f64>>) = match c.shape {
         Shape::Static => (vec![], vec![vec![]]),
         Shape::Var1 => (
             vec![Axis::new("wght", &c.axis_labels[0], 400.0, 400.0, 700.0)],
@@ -146,6 +219,9 @@ fn build_design(c: &Case) -> Design {
             vec![vec![400.0, 100.0], vec![700.0, 100.0], vec![400.0, 125.0]],
         ),
     };
+    for (a, l) in axes.iter_mut().zip(&c.axis_lnames) {
+        a.labelnames = l.clone();
+    }
     let mut d = Design::skeleton(&c.family, axes, locs);
     let dm = d.default_master;
     d.masters[dm].style_name = c.style.clone();
@@ -310,6 +386,7 @@ fn enumerate(tier: Tier) -> Vec<Case> {
                         other_insts: vec![],
                         ps: 0,
                         axis_labels: vec![],
+                        axis_lnames: vec![],
                         fea_name: n,
                         fea_ss: s,
                         fea_cv: c,
@@ -336,6 +413,7 @@ fn enumerate(tier: Tier) -> Vec<Case> {
                                 other_insts: oi.clone(),
                                 ps: *ps,
                                 axis_labels: vec![label.into()],
+                                axis_lnames: vec![],
                                 fea_name: n,
                                 fea_ss: s,
                                 fea_cv: c,
@@ -372,6 +450,7 @@ fn enumerate(tier: Tier) -> Vec<Case> {
                                     other_insts: oi.clone(),
                                     ps: *ps,
                                     axis_labels: vec![l0.into(), l1.into()],
+                                    axis_lnames: vec![],
                                     fea_name: *n,
                                     fea_ss: *s,
                                     fea_cv: *c,
@@ -379,6 +458,76 @@ fn enumerate(tier: Tier) -> Vec<Case> {
                                 });
                             }
                         }
+                    }
+                }
+            }
+        }
+    }
+    // --- axis <labelname> elements, one axis: every labelname configuration x the axis `name` attribute
+    // (configuration 0, no labelnames, only for the name the spaces above do not have)
+    let ln_defaults: Vec<Option<&str>> = tier.pick(
+        vec![None, Some("Regular"), Some("Fam"), Some(LN_INST)],
+        vec![None, Some("Regular"), Some("Fam"), Some("X"), Some(LN_INST)],
+    );
+    let ln_insts1 = instance_configs(tier.pick(0, 1), &ln_defaults, &[0]);
+    let ln_feas1 = tier.pick(vec![(false, false, false, 0u8), (true, true, true, 1)], fea_configs(tier, true));
+    for fam in FAMILIES {
+        for style in STYLES {
+            for &sm in &sms {
+                for name in LN_AXIS_NAMES {
+                    for k in 0..LN_CONFIGS.len() {
+                        if k == 0 && AXIS_LABELS.contains(&name) {
+                            continue;
+                        }
+                        for (di, oi, ps) in &ln_insts1 {
+                            for (n, s, c, st) in &ln_feas1 {
+                                out.push(Case {
+                                    shape: Shape::Var1,
+                                    family: fam.into(),
+                                    style: style.into(),
+                                    sm,
+                                    default_inst: di.clone(),
+                                    other_insts: oi.clone(),
+                                    ps: *ps,
+                                    axis_labels: vec![name.into()],
+                                    axis_lnames: vec![ln_config(0, k)],
+                                    fea_name: *n,
+                                    fea_ss: *s,
+                                    fea_cv: *c,
+                                    fea_stat: *st,
+                                });
+                            }
+                        }
+                    }
+                }
+            }
+        }
+    }
+    // --- axis <labelname> elements, two axes: every pair of labelname configurations (not none/none)
+    let ln_styles: Vec<&str> = tier.pick(vec!["Regular", "Bold"], STYLES.to_vec());
+    for style in ln_styles {
+        for sm in [0u8, 3] {
+            for k0 in 0..LN_CONFIGS.len() {
+                for k1 in 0..LN_CONFIGS.len() {
+                    if k0 == 0 && k1 == 0 {
+                        continue;
+                    }
+                    for di in [None, Some("Regular")] {
+                        out.push(Case {
+                            shape: Shape::Var2,
+                            family: "Fam".into(),
+                            style: style.into(),
+                            sm,
+                            default_inst: di.map(|s| s.to_string()),
+                            other_insts: vec![],
+                            ps: 0,
+                            axis_labels: vec!["weight".into(), "Fam".into()],
+                            axis_lnames: vec![ln_config(0, k0), ln_config(1, k1)],
+                            fea_name: false,
+                            fea_ss: false,
+                            fea_cv: false,
+                            fea_stat: 0,
+                        });
                     }
                 }
             }
@@ -444,6 +593,15 @@ struct Judged {
     signature_coarse: String,
     classes_coarse: Vec<String>,
     fvar_refs_below_256: usize,
+    /// axis name references (fvar + generated STAT) whose expected string is the axis' `en` labelname
+    axis_refs_from_en_labelname: usize,
+    /// ... whose axis has labelnames but no `en` one: expected string is the `name` attribute
+    axis_refs_fallback_despite_labelnames: usize,
+    /// ... whose expected string is the expansion of a lower-case MutatorMath axis name
+    axis_refs_legacy_name_expanded: usize,
+    /// name records in a language other than English under an axis name id / of those, in a language of the alphabet
+    localized_axis_records: usize,
+    localized_axis_records_judged: usize,
 }
 
 fn feature_param_refs(list: &FeatureList, table: &'static str, c: &Case, out: &mut Vec<Ref>, errs: &mut Vec<(String, String)>) {
@@ -595,6 +753,8 @@ fn judge(c: &Case, d: &Design, bytes: &[u8], stamp: &str) -> Judged {
         ));
     }
     let mut refs: Vec<Ref> = vec![];
+    // (name id, index of the source axis) of every axis name reference whose string comes from the designspace
+    let mut axis_refs: Vec<(u16, usize)> = vec![];
 
     // ---- fvar
     match (c.is_variable(), font.fvar()) {
@@ -620,8 +780,9 @@ fn judge(c: &Case, d: &Design, bytes: &[u8], stamp: &str) -> Judged {
                             site: format!("fvar.axis[{i}].axisNameID"),
                             class: "fvar.axisNameID",
                             id,
-                            expect: Some(da.name.clone()),
+                            expect: Some(ui_name(da)),
                         });
+                        axis_refs.push((id, i));
                     }
                 }
                 Err(e) => v.push(("unreadable:fvar.axes".into(), e.to_string())),
@@ -738,7 +899,10 @@ fn judge(c: &Case, d: &Design, bytes: &[u8], stamp: &str) -> Judged {
                             // the FEA table replaces the generated one; it declares one axis, wght
                             (tag == "wght").then(|| c.stat_axis_label())
                         } else {
-                            d.axes.iter().find(|x| x.tag == tag).map(|x| x.name.clone())
+                            if let Some(ai) = d.axes.iter().position(|x| x.tag == tag) {
+                                axis_refs.push((a.axis_name_id().to_u16(), ai));
+                            }
+                            d.axes.iter().find(|x| x.tag == tag).map(ui_name)
                         };
                         if expect.is_none() {
                             v.push(("stat-unknown-axis".into(), format!("STAT design axis {tag} is not in the source")));
@@ -873,6 +1037,55 @@ fn judge(c: &Case, d: &Design, bytes: &[u8], stamp: &str) -> Judged {
         }
     }
 
+    // ---- axis labelnames: which rule gave the expected string; records in other languages under the axis' id
+    for &(_, ai) in &axis_refs {
+        let da = &d.axes[ai];
+        if da.labelnames.iter().any(|(l, _)| l == "en") {
+            j.axis_refs_from_en_labelname += 1;
+        } else {
+            if !da.labelnames.is_empty() {
+                j.axis_refs_fallback_despite_labelnames += 1;
+            }
+            if ui_name(da) != da.name {
+                j.axis_refs_legacy_name_expanded += 1;
+            }
+        }
+    }
+    let mut seen: BTreeSet<(u16, usize)> = BTreeSet::new();
+    for &(id, ai) in &axis_refs {
+        if !seen.insert((id, ai)) {
+            continue;
+        }
+        let da = &d.axes[ai];
+        let want_en = ui_name(da);
+        for r in names.recs.iter().filter(|r| r.3 == id) {
+            // (platform, language) -> the source string of that language, where the alphabet has the language
+            let (english, want): (bool, Option<String>) = match (r.0, r.2) {
+                (3, 0x0409) => continue, // judged above, as the string behind the reference
+                (1, 0) => (true, Some(want_en.clone())),
+                (3, l) => (false, da.labelnames.iter().find(|(x, _)| lang_ids(x).map(|p| p.0) == Some(l)).map(|(_, s)| s.clone())),
+                (1, l) => (false, da.labelnames.iter().find(|(x, _)| x != "en-GB" && lang_ids(x).map(|p| p.1) == Some(l)).map(|(_, s)| s.clone())),
+                _ => (false, None),
+            };
+            if !english {
+                j.localized_axis_records += 1;
+            }
+            let Some(want) = want else { continue };
+            if !english {
+                j.localized_axis_records_judged += 1;
+            }
+            if r.4 != want {
+                v.push((
+                    format!("axis-labelname-record:{}", if english { "english" } else { "localized" }),
+                    format!(
+                        "name id {id} (axis {}) record (platform {}, language {:#06x}) says {:?}; the source's label for that language is {want:?}",
+                        da.tag, r.0, r.2, r.4
+                    ),
+                ));
+            }
+        }
+    }
+
     // ---- FEA `table name` statement
     if c.fea_name && names.win(9) != Some("Designer") {
         v.push(("fea-name-statement-lost".into(), format!("FEA `nameid 9 \"Designer\"`: font has {:?}", names.win(9))));
@@ -932,7 +1145,7 @@ fn judge(c: &Case, d: &Design, bytes: &[u8], stamp: &str) -> Judged {
         }
     }
     for (i, a) in d.axes.iter().enumerate() {
-        slots.push((format!("ax{i}"), a.name.clone()));
+        slots.push((format!("ax{i}"), ui_name(a)));
     }
     for (i, inst) in d.instances.iter().enumerate() {
         if c.is_variable() {
@@ -951,6 +1164,9 @@ fn judge(c: &Case, d: &Design, bytes: &[u8], stamp: &str) -> Judged {
     groups.sort();
     j.coinciding = !groups.is_empty();
     j.signature = format!("{:?}|{}", c.shape, groups.join(","));
+    if c.has_labelnames() {
+        j.signature.push_str(&format!("|labelnames {}", c.ln_signature()));
+    }
     // coarse form: only the classes that contain a source label (axis / instance / PostScript name),
     // instance positions forgotten
     let mut coarse: Vec<String> = classes
@@ -966,6 +1182,14 @@ fn judge(c: &Case, d: &Design, bytes: &[u8], stamp: &str) -> Judged {
     coarse.sort();
     j.signature_coarse = format!("{:?}|{}", c.shape, coarse.join(","));
     j.classes_coarse = coarse.iter().map(|g| format!("{:?}|{g}", c.shape)).collect();
+    if c.has_labelnames() {
+        // the labelname configuration is a class of its own (the labels go through a map keyed by language)
+        j.signature_coarse.push_str(&format!("|labelnames {}", c.ln_signature()));
+        for (i, l) in c.axis_lnames.iter().enumerate().filter(|(_, l)| !l.is_empty()) {
+            let langs: Vec<&str> = l.iter().map(|(lang, _)| lang.as_str()).collect();
+            j.classes_coarse.push(format!("{:?}|labelnames axis {i}: {}", c.shape, langs.join("+")));
+        }
+    }
     j.viol = v;
     j
 }
@@ -985,6 +1209,11 @@ struct CaseOut {
     fvar_refs_below_256: usize,
     compiled: bool,
     extra_compiles: usize,
+    axis_refs_from_en_labelname: usize,
+    axis_refs_fallback_despite_labelnames: usize,
+    axis_refs_legacy_name_expanded: usize,
+    localized_axis_records: usize,
+    localized_axis_records_judged: usize,
 }
 
 /// Compile again on the same thread. std's `RandomState::new()` hands every new map the thread's keys
@@ -1079,7 +1308,13 @@ fn run_case_rest(
     out.signature_coarse = j.signature_coarse;
     out.classes_coarse = j.classes_coarse;
     out.fvar_refs_below_256 = j.fvar_refs_below_256;
-    if out.coinciding {
+    out.axis_refs_from_en_labelname = j.axis_refs_from_en_labelname;
+    out.axis_refs_fallback_despite_labelnames = j.axis_refs_fallback_despite_labelnames;
+    out.axis_refs_legacy_name_expanded = j.axis_refs_legacy_name_expanded;
+    out.localized_axis_records = j.localized_axis_records;
+    out.localized_axis_records_judged = j.localized_axis_records_judged;
+    // the labelnames go through a map keyed by language: recompile those cases under other hash keys too
+    if out.coinciding || c.has_labelnames() {
         for _ in 0..repeats {
             out.extra_compiles += 1;
             match compile_again(path) {
@@ -1248,6 +1483,8 @@ fn main() {
         (0u64, 0u64, 0u64, 0u64, 0u64, 0u64, 0u64, 0u64, 0u64);
     let mut chain_asserted = 0u64;
     let mut fvar_reuse_cases = 0u64;
+    let mut ln_cases: BTreeMap<String, u64> = BTreeMap::new();
+    let (mut ln_total, mut ln_en, mut ln_fallback, mut ln_legacy, mut ln_loc, mut ln_loc_judged) = (0u64, 0u64, 0u64, 0u64, 0u64, 0u64);
     let mut sig_reps: BTreeMap<String, Vec<usize>> = BTreeMap::new();
     let mut samples: Vec<Value> = vec![];
     for (i, (c, o)) in cases.iter().zip(&outs).enumerate() {
@@ -1262,11 +1499,23 @@ fn main() {
         refs_low += o.refs_below_256 as u64;
         extra += o.extra_compiles as u64;
         chain_asserted += (o.compiled && (c.sm == 0 || c.sm == 3)) as u64;
-        if o.coinciding && o.refs > 0 {
+        if (o.coinciding || c.has_labelnames()) && o.refs > 0 {
             nontrivial += 1;
         }
+        if c.has_labelnames() {
+            ln_total += 1;
+            for l in c.axis_lnames.iter().filter(|l| !l.is_empty()) {
+                let langs: Vec<&str> = l.iter().map(|(lang, _)| lang.as_str()).collect();
+                *ln_cases.entry(langs.join("+")).or_default() += 1;
+            }
+        }
+        ln_en += o.axis_refs_from_en_labelname as u64;
+        ln_fallback += o.axis_refs_fallback_despite_labelnames as u64;
+        ln_legacy += o.axis_refs_legacy_name_expanded as u64;
+        ln_loc += o.localized_axis_records as u64;
+        ln_loc_judged += o.localized_axis_records_judged as u64;
         let seed_candidate = tier == Tier::Thorough || c.fea_text().is_none();
-        if o.coinciding && c.is_variable() && seed_candidate {
+        if (o.coinciding || c.has_labelnames()) && c.is_variable() && seed_candidate {
             let sig = tier.pick(&o.signature_coarse, &o.signature);
             sig_reps.entry(sig.clone()).or_default().push(i);
         }
@@ -1354,7 +1603,7 @@ fn main() {
     rep.set("distinct_nontrivial", nontrivial);
     rep.set(
         "rule",
-        "cases whose font has at least one cross-table name reference (fvar/STAT/feature params) AND a string coincidence: two of {name ids 1,2,4,6,16,17 of the font, axis labels, instance names, instance PostScript names} are the same string",
+        "cases whose font has at least one cross-table name reference (fvar/STAT/feature params) AND (a string coincidence: two of {name ids 1,2,4,6,16,17 of the font, axis display names, instance names, instance PostScript names} are the same string, OR an axis with <labelname> elements)",
     );
     rep.set("fonts_with_coinciding_strings", coinciding);
     rep.set("variable_fonts_with_instances", with_inst);
@@ -1364,6 +1613,13 @@ fn main() {
     rep.set("name_references_checked", refs);
     rep.set("name_references_below_256", refs_low);
     rep.set("fallback_chain_asserted_on", chain_asserted);
+    rep.set("cases_with_axis_labelnames", ln_total);
+    rep.set("axes_by_labelname_configuration", json!(ln_cases));
+    rep.set("axis_name_refs_expecting_the_en_labelname", ln_en);
+    rep.set("axis_name_refs_expecting_the_name_attribute_despite_labelnames", ln_fallback);
+    rep.set("axis_name_refs_expecting_an_expanded_legacy_name", ln_legacy);
+    rep.set("axis_name_records_in_other_languages", ln_loc);
+    rep.set("axis_name_records_in_other_languages_judged", ln_loc_judged);
     rep.set("inprocess_recompiles_other_hash_keys", extra);
     rep.set("coincidence_signatures", sig_reps.len() as u64);
     rep.set(
@@ -1395,6 +1651,15 @@ fn main() {
         json!({
             "family": FAMILIES, "style": STYLES, "styleMap": tier.pick("minimal | full", "minimal | family only | style only | full"),
             "instance_names": INST_NAMES, "axis_labels": AXIS_LABELS,
+            "axis_labelnames": {
+                "configurations (xml:lang in document order)": LN_CONFIGS,
+                "strings axis 0 / axis 1": LN_STRINGS.iter().map(|a| a.iter().map(|(l, s)| format!("{l}={s}")).collect::<Vec<_>>()).collect::<Vec<_>>(),
+                "one axis": format!("axis name in {LN_AXIS_NAMES:?} x every configuration (none only for \"weight\") x family x style x styleMap x default-location instance in {}{} x FEA {}",
+                    tier.pick("{none, Regular, Fam, Heaviness}", "{none, Regular, Fam, X, Heaviness}"),
+                    tier.pick("", " x at most 1 other instance"),
+                    tier.pick("{none, all three + STAT v1}", "{none, all three + STAT v1, all three + STAT v3}")),
+                "two axes": format!("axes named weight, Fam; every pair of configurations except none/none x style {} x styleMap minimal|full x default-location instance {{none, Regular}}", tier.pick("{Regular, Bold}", "any")),
+            },
             "instances": tier.pick("default-location instance in {none}+names x at most 1 other", "default-location instance in {none}+names x subsets of <= 2 others"),
             "ps_names": tier.pick("none | all", "none | all | first only"),
             "fea": tier.pick("none; each of {name stmt, ss01 featureNames, cv01 cvParameters, STAT v1, STAT v2, STAT v3} alone; all three + STAT v1; all three + STAT v3", "every subset of {name stmt, ss01 featureNames, cv01 cvParameters} x STAT {none, v1, v3}; STAT v2 alone"),
@@ -1407,6 +1672,9 @@ fn main() {
     rep.assume("id 5 stamp text is `;fontc ` + fontc::version() (the documented build stamp), the only part of the name table allowed to depend on something other than the source");
     rep.assume("STAT name ids below 26 are not flagged (the STAT spec sets no range); ids 26..255 are");
     rep.assume("FEA-declared names are not expected to be reused for equal strings; only the strings behind the referenced ids are compared");
+    rep.assume("axis display name: the `en` <labelname> (exact xml:lang match, as Axis::ui_label_name documents), else the axis `name` attribute with the five lower-case MutatorMath names expanded (weight -> Weight ...). fontTools differs on one point not asserted here: with labelnames in other languages only it adds no English name at all");
+    rep.assume("labelnames in languages other than `en` (en-GB, fr): the unchanged compiler emits no name records for them (fontTools' addMultilingualName would); their absence is not asserted. If a record in the Windows / Macintosh language of such a labelname exists under the axis' name id it must carry that labelname's string; records in languages outside the alphabet are counted, not judged");
+    rep.assume("two <labelname> elements with the same xml:lang on one axis are not enumerated (the specification does not say which wins)");
     rep.assume("seed dimension: product binary with RAYON_NUM_THREADS=2 and the getrandom shim; representatives per coincidence signature (quick: among the cases without FEA), not every case; every coinciding case is additionally recompiled in process under different (unowned) hash keys");
     rep.finish()
 }
